@@ -233,8 +233,8 @@ func TestCheck(t *testing.T) {
 		run.Broken("monolith build: " + err.Error())
 		return
 	}
-	nPart := run.N(6, 200)
-	nQ := run.N(60, 300)
+	nPart := run.N(16, 300)
+	nQ := run.N(100, 400)
 	var refreshes int64
 	run.Each(nPart, 2, func(pi int) {
 		r0 := run.Rand("refresh", pi)
@@ -338,7 +338,32 @@ func oneQuery(run *vlib.Run, sd *gen.SchemaDesc, mono *graphql.Schema, p *partit
 		if err != nil {
 			return
 		}
-		got, _, err := p.gateway.Execute(ctx, gq, nil)
+		type gres struct {
+			v   interface{}
+			err error
+		}
+		ch := make(chan gres, 1)
+		go func() {
+			v, _, err := p.gateway.Execute(ctx, gq, nil)
+			ch <- gres{v, err}
+		}()
+		var got interface{}
+		select {
+		case g := <-ch:
+			got, err = g.v, g.err
+		case <-time.After(20 * time.Second):
+			// stuck or slow? sample twice: goroutines parked in thunder's federation code with no progress
+			s1 := len(vlib.ThunderGoroutines())
+			time.Sleep(500 * time.Millisecond)
+			select {
+			case g := <-ch:
+				got, err = g.v, g.err
+			default:
+				run.Violation(caseIdx, classify("gateway hang", ""), map[string]interface{}{"what": "gateway request did not return (20 s, no progress) on a query the combined server answers at once",
+					"query": text, "variables": vars, "partition": p.describe(), "thunder_goroutines": s1, "stacks": vlib.Trunc(strings.Join(vlib.ThunderGoroutines(), "\n\n"), 5000)})
+				return
+			}
+		}
 		wit := map[string]interface{}{"query": text, "variables": vars, "partition": p.describe(), "repetition": rep,
 			"world": map[string]interface{}{"seed": w.Seed, "n": w.N, "m": w.M}, "want": vlib.Trunc(wantC, 2500)}
 		for _, c := range p.clients {
@@ -357,10 +382,19 @@ func oneQuery(run *vlib.Run, sd *gen.SchemaDesc, mono *graphql.Schema, p *partit
 			run.Violation(caseIdx, classify(err.Error(), ""), wit)
 			return
 		}
-		gotC := vlib.Canon(strip(got))
+		gotS := strip(got)
+		gotC := vlib.Canon(gotS)
 		if gotC != wantC {
-			wit["what"] = "gateway result differs from the combined server's result"
 			wit["got"] = vlib.Trunc(gotC, 2500)
+			wantS, _ := vlib.ToJSONForm(strip(want))
+			if n := dropInjectedTypename(gotS, wantS); n > 0 && vlib.Canon(gotS) == wantC {
+				// the only difference: objects carry a "__typename" the query did not select
+				wit["what"] = fmt.Sprintf("gateway result carries %d unrequested __typename entries (the planner's dispatch marker for unions is not removed)", n)
+				run.Violation(caseIdx, "gateway-leaves-injected-typename-in-union-objects", wit)
+				run.Count("known_class_hits:injected_typename", 1)
+				continue
+			}
+			wit["what"] = "gateway result differs from the combined server's result"
 			run.Violation(caseIdx, classify("", gotC), wit)
 			return
 		}
@@ -381,6 +415,8 @@ func classify(errText, got string) string {
 		return ""
 	}
 	switch {
+	case errText == "gateway hang":
+		return "triage:gateway-hang"
 	case strings.Contains(errText, "not an object"):
 		return "triage:null-hop-not-an-object"
 	case errText != "":
@@ -394,3 +430,38 @@ func classify(errText, got string) string {
 }
 
 var _ = json.Marshal
+
+// dropInjectedTypename deletes from got every "__typename" entry that want
+// does not have at the same position, and returns how many were deleted.
+func dropInjectedTypename(got, want interface{}) int {
+	n := 0
+	switch g := got.(type) {
+	case map[string]interface{}:
+		w, _ := want.(map[string]interface{})
+		if v, ok := g["__typename"]; ok {
+			if _, isStr := v.(string); isStr && w != nil {
+				if _, wanted := w["__typename"]; !wanted {
+					delete(g, "__typename")
+					n++
+				}
+			}
+		}
+		for k, v := range g {
+			var wv interface{}
+			if w != nil {
+				wv = w[k]
+			}
+			n += dropInjectedTypename(v, wv)
+		}
+	case []interface{}:
+		w, _ := want.([]interface{})
+		for i, v := range g {
+			var wv interface{}
+			if i < len(w) {
+				wv = w[i]
+			}
+			n += dropInjectedTypename(v, wv)
+		}
+	}
+	return n
+}
